@@ -220,6 +220,11 @@ def run_blocks(blocks, workers):
 
 def check_time_limbs(st):
     c, x = st["c"], st["x"]
+    if x["expect"] == "within":
+        t = text(c["text"])
+        h, mi, s = c["fields"]
+        _need(t[:9] == "%02d:%02d:%02d." % (h, mi, s) and t[9:].isdigit() and len(t[9:]) == c["digits"] > 9
+              and x["nine"]["secs"] == h * 3600 + mi * 60 + s < 86400 and x["nine"]["ns"] == int(t[9:18]), "long fraction %r" % t)
     if x["expect"] != "ok":
         return
     n = c["secs"] * 10 ** 9 + c["ns"]
@@ -243,6 +248,21 @@ def judge_time(drv, st, crosscheck=True):
         sig = "time:int:%s-accepted" % x["why"]                # TimeType.serialize(int) is another door to the same constructor
         J.must_raise(sig, "Time(%d)" % n, _call(lambda: Time(n).nanosecond_time), n=n)
         J.must_raise(sig, "TimeType.serialize(%d)" % n, _call(TT.serialize, n, 4), n=n)
+        return J.result()
+    if c["kind"] == "longfraction":              # more than nine fractional digits: refusing is fine, so is any value of the
+        s = text(c["text"])                      # day (both recorded); a time outside the day is not ("only accepts times
+        nine = x["nine"]["secs"] * 10 ** 9 + x["nine"]["ns"]                                   # within one day")
+        for what, got in (("Time(%r).nanosecond_time" % s, _call(lambda: Time(s).nanosecond_time)),
+                          ("TimeType.serialize(%r)" % s, _call(lambda: int.from_bytes(TT.serialize(s, 4), "big", signed=True)))):
+            J.n += 1
+            if got[0] == "raised":
+                J.note_open("fraction of more than nine digits: refused")
+                continue
+            inside = isinstance(got[1], int) and 0 <= got[1] < 86400 * 10 ** 9
+            J.note_open("fraction of more than nine digits: accepted as %s" % ("the first nine digits" if got[1] == nine else "another time of the day" if inside else "a time outside the day"))
+            if not inside:
+                J.devs.append(("time:string:long-fraction:outside-the-day-accepted", "%s = %r: not a time within one day" % (what, got[1]),
+                               {"text": s, "real": _j(got[1])}))
         return J.result()
     if c["kind"] == "string":
         s = text(c["text"])
